@@ -817,10 +817,11 @@ func (db *Default) ProfileByHumanID(
 		return nil, nil, fmt.Errorf("%s: %w", errPrefix, err)
 	}
 
-	if humanID != d.HumanIDLower {
+	if humanID != d.HumanIDLower || p.ID != id {
 		// Perhaps, the device has changed its human ID, for example by being
-		// transformed into a normal device..  Remove it from our profile DB in
-		// a goroutine, since that requires a write lock.
+		// transformed into a normal device, or has been moved to another
+		// profile.  Remove it from our profile DB in a goroutine, since that
+		// requires a write lock.
 		go db.removeHumanID(ctx, k)
 
 		return nil, nil, fmt.Errorf("%s: rechecking human id: %w", errPrefix, ErrDeviceNotFound)
@@ -847,7 +848,7 @@ func (db *Default) removeHumanID(ctx context.Context, k humanIDKey) {
 	}
 
 	d := db.attachedDevice(id)
-	if d != nil && d.HumanIDLower == k.lower {
+	if d != nil && d.HumanIDLower == k.lower && db.deviceIDToProfileID[id] == k.profile {
 		return
 	}
 
